@@ -129,12 +129,19 @@ impl PageCache {
         };
 
         let mut found_victim = None;
+        // NO-STEAL: a dirty frame is never evicted. The data file changes only at a checkpoint,
+        // so that after a crash it is the state of the last checkpoint, which the logical log can
+        // be replayed against (pages written one by one in between leave half-done splits and
+        // dangling page ids that no log record describes).
+        let mut dirty_but_free = false;
         // Attempt to iterate over all the frames, starting over on every call: a frame that was
         // pinned when an earlier scan passed it may have been released since.
         self.cursor = 0;
         while self.cursor <= self.frames.len() && found_victim.is_none() {
             if let Some((pid, frame)) = self.frames.get_index(self.cursor) {
-                if frame.is_free() {
+                if frame.is_free() && frame.is_dirty() {
+                    dirty_but_free = true;
+                } else if frame.is_free() {
                     self.stats.eviction();
 
                     let (_, victim) = self.frames.swap_remove_index(self.cursor).unwrap();
@@ -151,6 +158,11 @@ impl PageCache {
         if found_victim.is_some() {
             return Ok(found_victim);
         };
+
+        // Only dirty frames could go: the cache grows past its capacity until the next checkpoint.
+        if dirty_but_free {
+            return Ok(None);
+        }
 
         Err(IoError::new(
             ErrorKind::OutOfMemory,
